@@ -1,4 +1,6 @@
 mod algo;
+mod api;
+mod repro;
 mod gml;
 mod par;
 mod gens;
@@ -74,6 +76,12 @@ fn main() {
             let mut pool = watchdog::Pool::new();
             gml::corruption_events(&mut em, geti(&m, "n", 20) as usize, geti(&m, "stride", 3) as usize, geti(&m, "seed", 0) as u64, &mut pool);
             println!("{{\"events\":{},\"child_calls\":{},\"hangs\":{},\"aborts\":{}}}", em.next_id - 1, pool.calls, pool.hangs, pool.aborts);
+        }
+        "repro" => {
+            let file = std::fs::File::create(m.get("out").expect("--out")).expect("create out");
+            let mut em = mutgen::Emitter::new(BufWriter::new(file));
+            repro::repro_events(&mut em, geti(&m, "thorough", 0) == 1, geti(&m, "seed", 0) as u64);
+            println!("{{\"events\":{}}}", em.next_id - 1);
         }
         "gens" => {
             let file = std::fs::File::create(m.get("out").expect("--out")).expect("create out");
@@ -208,6 +216,19 @@ fn cmd_worker() {
         let line = match line { Ok(l) => l, Err(_) => break };
         let req: serde_json::Value = match serde_json::from_str(&line) { Ok(v) => v, Err(_) => continue };
         let out = algo::guarded(|| {
+            if req["call"]["kind"] == "gnp" {
+                let c = &req["call"];
+                let p = c["p"][0].as_i64().unwrap() as f64 / c["p"][1].as_i64().unwrap() as f64;
+                return match graphrs::generators::random::fast_gnp_random_graph(c["n"].as_i64().unwrap() as i32, p, c["directed"].as_bool().unwrap(), Some(c["seed"].as_u64().unwrap())) {
+                    Ok(g) => {
+                        let names: Vec<i32> = g.get_all_node_names().into_iter().copied().collect();
+                        let mut es: Vec<(i32, i32)> = g.get_all_edges().iter().map(|e| (e.u, e.v)).collect();
+                        es.sort();
+                        serde_json::json!({"nodes": names, "edges": es})
+                    }
+                    Err(e) => serde_json::json!({"err": kind_name(&e.kind)}),
+                };
+            }
             if req["call"]["kind"] == "graphml_read" {
                 return gml::read_call(req["call"]["doc"].as_str().unwrap(), SpecsJ::from_json(&req["call"]["specs"]));
             }
@@ -217,6 +238,7 @@ fn cmd_worker() {
             let g = build(specs, &ops);
             match req["call"]["kind"].as_str().unwrap() {
                 "louvain" => algo2::louvain_call(&g, &req["call"]["args"]),
+                "louvain_repeat" => repro::louvain_repeat(&g, &req["call"]["args"]),
                 k => serde_json::json!({"e": "UnknownCall", "v": [], "kind": k}),
             }
         });
